@@ -63,3 +63,35 @@ PLANS = {
     "C08": tree_plan("C08", "exploration", RULE_TREE + "; batch-heavy op mix (removals before/inside/after/interleaved, empty parts, out of range)", 1500, 30000),
     "C15": tree_plan("C15", "exploration", RULE_TREE + "; includes close/reopen and drop/reopen of path-backed persistent nodes", 1500, 30000),
 }
+
+
+def c16_plan(tier, seed, known):
+    thorough = tier == "thorough"
+    n_hist = 4000 if thorough else 330
+    n_l2 = 6000 if thorough else 900
+    jobs = split_jobs("e1store", "C16", seed, n_hist, 3, 4, "default", known, tier)
+    # L2: sled's failpoints are process-global, so each process runs its simulations one at a time
+    jobs += split_jobs("e1store", "C16", seed, n_l2, 4, 1, "default", known, tier, extra=["--l2"], base=50_000_000)
+    return {
+        "jobs": jobs,
+        "level": "fault_enumeration",
+        "rule": ("L1: one seeded history (2..12 operations incl. flush, close/reopen, drop/reopen, metadata; depth 1..6, sometimes 20 in "
+                 "thorough; swarm-chosen sled configuration) on a path-backed PmTree or RLN instance is first run fault-free with the full "
+                 "oracle (root, leaves, leaf count, metadata, empty list after every step and after every reopen), then re-run once per "
+                 "failure position k = 1,2,.. of its storage writes/flushes (until position k is no longer reached: every position is "
+                 "enumerated) and per kind {transient, sticky}; one evaluation = one such run; non-trivial and distinct = the armed failure "
+                 "fired, keyed by (history digest, k, kind). L2: the same histories with sled's own 'buffer write' failpoint armed after a "
+                 "seeded step (a real sled::Error reaches the adapter), oracle: flushed data survives reopen, unflushed data is old-or-new never "
+                 "garbage, Ok calls are readable on the same instance, reopening works."),
+        "real": REAL_TREE + ["utils::pm_tree::SledDB adapter (L1: hook returns the adapter's own error value before sled is called; L2: real sled errors)"],
+        "stub": ["the storage failure source (L1: guarded hook in SledDB::put/put_batch/close; L2: sled's failpoints feature)", "the caller"],
+        "assumptions": ASSUME_TREE + [
+            "read failures and open failures are outside C16's quantifier",
+            "root consistency after a failed multi-write update is not demanded (the property promises error reporting and survival of earlier acknowledged updates)",
+            "L2 timing (when sled's writer meets the failpoint) is not controlled; its oracle has only timing-independent clauses",
+        ],
+        "timeout_s": 3000 if thorough else 900,
+    }
+
+
+PLANS["C16"] = c16_plan
